@@ -72,6 +72,11 @@ CHECKS = {
    "Sources come from seeded histories ending in every mixture of cache / file generations / pending tombstones; BackupShard -> RestoreShard into a second store must read like the source (and reopen), the source must be unchanged, ExportShard must agree inside its range, a backup racing a writer must hold a prefix of the acknowledged writes that includes everything acknowledged before the call (also with a cache snapshot parked); on a 3-node cluster copy-shard through the meta endpoint is judged: success => destination content equals source and owner added, failure => owner list unchanged, with the backup stream cut through the dial hook.",
    "Sampled histories; outside an export's time range only 'never written' data counts as foreign; destination stopped mid-restore and source stopped mid-copy are approximated by stream cuts.",
    "DESIGN.md section 3 C18"),
+ "C19": ("exploration",
+   "Go race detector over six stress workloads + history oracles: per-read acknowledged-before/started-before bounds with unique timestamps, porcupine linearizability of hot-key registers, quiescent equality, replica comparison, deadlock evidence from paired goroutine dumps",
+   "Race-detector build of the real store, meta FSM, connection pool and a 3-node cluster under concurrent writers, overwriters, readers (both APIs), snapshots, explicit and background compactions, deletes, backups and hook-injected delays; race reports between two repository frames, crashes (supervisor) and deadlock evidence are violations; every read must contain all writes acknowledged before it began and nothing not yet started; hot-key histories are checked with porcupine; after the load stops (and after a restart) every acknowledged write must be readable; concurrent first writes of a field with different types must leave one type; replicas of an RF3 database must be identical after concurrent writes with locally rejected points.",
+   "Only schedules that were executed are judged; porcupine timeouts and watchdogs without identical dumps are inconclusive; hinted-handoff concurrency is exercised by C04's race-detector run.",
+   "DESIGN.md section 3 C19"),
 }
 
 NOT_APPLICABLE = {
